@@ -3,6 +3,7 @@ use core::fmt::Debug;
 use bytes::Bytes;
 
 use crate::base::iana::Opcode;
+use crate::base::wire::ParseError;
 use crate::base::{Message, ParsedName, Rtype};
 use crate::rdata::{Soa, ZoneRecordData};
 use crate::zonetree::types::ZoneUpdate;
@@ -378,6 +379,29 @@ impl RecordProcessor {
 
             XfrType::Ixfr => {
                 if let Some(soa) = soa {
+                    // https://datatracker.ietf.org/doc/html/rfc1995#section-4
+                    // 4. Response Format
+                    //   "The list of difference sequences is preceded and
+                    //    followed by a copy of the server's current version
+                    //    of the SOA."
+                    //
+                    // The copy of the server's current SOA can thus only
+                    // end the transfer if the difference sequence that was
+                    // just completed produced that version. Otherwise one
+                    // or more difference sequences are missing and the
+                    // zone content built so far is not the content of the
+                    // version that the closing SOA announces.
+                    if self.ixfr_update_mode == IxfrUpdateMode::Adding
+                        && record_matches_initial_soa
+                        && self.current_soa != self.initial_soa
+                    {
+                        return Err(IterationError::ParseError(
+                            ParseError::form_error(
+                                "IXFR closing SOA does not match the last difference sequence",
+                            ),
+                        ));
+                    }
+
                     // IXFR diff boundary or end case:
                     self.ixfr_update_mode.toggle();
                     self.current_soa = soa.clone();
